@@ -419,6 +419,22 @@ class Flow:
                 while isinstance(first.value, (ast.Attribute,
                                                ast.Subscript)):
                     first = first.value
+                if isinstance(first, ast.Attribute) and root.id == 'self' \
+                        and bind and ('.' + first.attr) in bind:
+                    # a field of the instance the method is analysed for
+                    # (set by its constructor from known arguments)
+                    rest = self._suffix_after(e, first, fn, bind, _seen)
+                    for a in bind['.' + first.attr]:
+                        if a.startswith(('const:', 'key:')):
+                            if not rest:
+                                out.add(a)
+                            continue
+                        if a.startswith(('alloc:', 'via:')) or not rest:
+                            out.add(a)
+                        else:
+                            out.add((a[6:] if a.startswith('param:')
+                                     else a) + rest)
+                    return out
                 if isinstance(first, ast.Attribute) and root.id in (
                         'self', 'cls'):
                     prop = self._property(first.attr, fn)
@@ -552,7 +568,8 @@ class Flow:
     def _bkey(self, bind):
         if bind is None:
             return None
-        return frozenset((k, frozenset(v)) for k, v in bind.items())
+        return frozenset((k, frozenset(v)) for k, v in bind.items()
+                         if k != '#site')
 
     def _locals_table(self, sc, bind, depth):
         """name -> atoms for every local of function `sc` (under a binding
@@ -909,6 +926,20 @@ class Flow:
                     unparse(g.target).replace('(', '').replace(')', ''):
                 return self.const_rows(g.iter, fn, bind, _d + 1)
             return None
+        if isinstance(it, ast.Attribute) and isinstance(
+                it.value, ast.Name) and it.value.id in ('self', 'cls') and \
+                fn is not None:
+            ci = fn.cls
+            if ci is None:
+                for sc in self._scope_chain(fn):
+                    if sc.cls is not None:
+                        ci = sc.cls
+                        break
+            if ci is not None:
+                owner, v = ci.find_attr(it.attr)
+                if v is not None and it.attr in owner.attrs:
+                    return self.const_rows(v, None, None, _d + 1)
+            return None
         if isinstance(it, ast.Name):
             if fn is not None and self._is_local(it.id, fn):
                 for sc in self._scope_chain(fn):
@@ -930,6 +961,97 @@ class Flow:
             if r is not None and r[0] == 'value' and r[3] is not None:
                 return self.const_rows(r[3], None, None, _d + 1)
         return None
+
+    def table_rows(self, it, fn, bind=None, _d=0):
+        """Like const_rows for tables whose cells need not be constants:
+        ([row], scope fn, scope bind) with each row an AST element (or a
+        tuple display of elements); None when `it` is not a literal table
+        of at most 8 rows (reached directly or through single-definition
+        locals / module or class level names)."""
+        if _d > 4 or it is None:
+            return None
+        if isinstance(it, (ast.Tuple, ast.List)):
+            if 0 < len(it.elts) <= 8 and not any(
+                    isinstance(x, ast.Starred) for x in it.elts):
+                return list(it.elts), fn, bind
+            return None
+        if isinstance(it, ast.Name):
+            if fn is not None and self._is_local(it.id, fn):
+                for sc in self._scope_chain(fn):
+                    ds = self.defs(sc.node).get(it.id)
+                    if ds:
+                        if len(ds) == 1 and ds[0][0] == 'value' and \
+                                it.id not in Q.params(sc.node):
+                            return self.table_rows(
+                                ds[0][1], sc, bind if sc is fn else None,
+                                _d + 1)
+                        return None
+                return None
+            if fn is None:
+                return None
+            try:
+                r = self.repo.resolve_symbol(fn.module.name, it.id)
+            except Exception:
+                r = None
+            if r is not None and r[0] == 'value' and r[3] is not None:
+                return self.table_rows(r[3], None, None, _d + 1)
+            return None
+        if isinstance(it, ast.Attribute) and isinstance(
+                it.value, ast.Name) and it.value.id in ('self', 'cls') and \
+                fn is not None:
+            ci = fn.cls
+            if ci is None:
+                for sc in self._scope_chain(fn):
+                    if sc.cls is not None:
+                        ci = sc.cls
+                        break
+            if ci is not None:
+                owner, v = ci.find_attr(it.attr)
+                if v is not None and it.attr in owner.attrs:
+                    return self.table_rows(v, None, None, _d + 1)
+        return None
+
+    def loop_binds(self, loop, fn, bind=None):
+        """[{'=name': atoms}] -- one binding of the loop variables per row
+        of the literal table the loop iterates (constants as `const:`
+        atoms, other cells as the atoms of the cell expression); None when
+        the iterable is not such a table."""
+        tr = self.table_rows(loop.iter, fn, bind)
+        if tr is None:
+            rows = self.const_rows(loop.iter, fn, bind)
+            if rows is None:
+                return None
+            lr = self.loop_rows(loop, fn, bind)
+            if lr is None:
+                return None
+            return [{'=' + k: {'const:' + repr(v)} for k, v in row.items()}
+                    for row in lr]
+        rows, sfn, sbind = tr
+        t = loop.target
+        out = []
+
+        def cell(x):
+            if isinstance(x, ast.Constant):
+                return {'const:' + repr(x.value)}
+            return set(self.atoms(x, sfn, sbind))
+        for row in rows:
+            if isinstance(t, ast.Name):
+                if isinstance(row, (ast.Tuple, ast.List)):
+                    return None
+                out.append({'=' + t.id: cell(row)})
+            elif isinstance(t, (ast.Tuple, ast.List)) and isinstance(
+                    row, (ast.Tuple, ast.List)) and len(row.elts) == len(
+                        t.elts) and all(isinstance(x, ast.Name)
+                                        for x in t.elts):
+                out.append({'=' + x.id: cell(v)
+                            for x, v in zip(t.elts, row.elts)})
+            else:
+                return None
+        # worth unrolling only when some loop variable takes constants
+        if not any(a.startswith('const:') for b in out for v in b.values()
+                   for a in v):
+            return None
+        return out
 
     def loop_rows(self, loop, fn, bind=None):
         """[{name: constant}] for a `for` loop over a constant table (one
@@ -1031,12 +1153,19 @@ class Flow:
                 return out if found else None
             return None
         if isinstance(e, ast.Name) and fn is not None:
+            if e.id in Q.params(fn.node):
+                # a mapping handed in by the caller (and possibly extended
+                # here by item assignment)
+                pe = self.param_expr(e.id, fn, bind)
+                if pe is not None:
+                    merge(self.record(pe[0], pe[1], pe[2], depth + 1,
+                                      _seen))
             for sc in self._scope_chain(fn):
                 ds = self.defs(sc.node).get(e.id)
                 if not ds:
                     continue
                 b = bind if sc is fn else None
-                found = False
+                found = bool(out)
                 for kind, expr, idx in ds:
                     if kind == 'value':
                         rr = self.record(expr, sc, b, depth, _seen)
@@ -1069,7 +1198,7 @@ class Flow:
                                         found = True
                                         merge(rr)
                 return out if found else None
-            return None
+            return out if out else None
         return None
 
     def rec_atoms(self, rec, key):
@@ -1255,7 +1384,41 @@ class Flow:
                 d = Q.param_default(callee.node, p)
                 if d is not None:
                     b[p] = self.atoms(d, callee, None, depth, _seen)
+        # the call site itself: record()/sequence() of a parameter continue
+        # in the caller's expression (not part of the cache key: atoms do
+        # not depend on it)
+        tok = 'site:{}'.format(id(call))
+        self.__dict__.setdefault('_sites', {})[tok] = (call, callee, fn, bind)
+        b['#site'] = {tok}
         return b
+
+    def param_expr(self, name, fn, bind):
+        """(expr, caller fn, caller bind) of the argument bound to parameter
+        `name` of fn at the call site the binding came from; None when
+        unknown (unbound analysis, *args, defaults)."""
+        if not bind or '#site' not in bind:
+            return None
+        site = self.__dict__.get('_sites', {}).get(next(iter(bind['#site'])))
+        if site is None:
+            return None
+        call, callee, cfn, cbind = site
+        if callee is not fn:
+            return None
+        a_ = callee.node.args
+        pos = [x.arg for x in a_.posonlyargs + a_.args]
+        if pos and pos[0] in ('self', 'cls') and (isinstance(
+                call.func, ast.Attribute) or callee.cls is not None and
+                not isinstance(call.func, ast.Name)):
+            pos = pos[1:]
+        for i, a in enumerate(call.args):
+            if isinstance(a, ast.Starred):
+                break
+            if i < len(pos) and pos[i] == name:
+                return a, cfn, cbind
+        for k in call.keywords:
+            if k.arg == name:
+                return k.value, cfn, cbind
+        return None
 
     def _call_atoms(self, e, fn, bind, depth, _seen):
         key = (id(e), fn.fq if fn else None, self._bkey(bind), depth)
